@@ -324,6 +324,7 @@ pub fn honest<C: NatCtx>(
 }
 
 pub fn run_c02<C: NatCtx>(v: &mut Env<C>) {
+    scale_c02(v);
     let small = v.small;
     let quick = v.h.tier == Tier::Quick;
     let sk = v.rnd_exp();
@@ -415,6 +416,37 @@ pub fn run_c02<C: NatCtx>(v: &mut Env<C>) {
     }
 }
 
+/// SCALE for C02 (implementation only, cheapest group): the outputs of a large shuffle are the re-encrypted
+/// permutation of the inputs, nothing dropped or duplicated
+pub fn scale_c02<C: NatCtx>(v: &mut Env<C>) {
+    if !(v.small && v.p == big(23) && C::kind() == 'B') {
+        return;
+    }
+    let quick = v.h.tier == Tier::Quick;
+    let ctx = v.ctx.clone();
+    let tok = v.tok.clone();
+    let sk = v.rnd_exp();
+    for nn in if quick { vec![4097usize, 70001] } else { vec![4097, 16385, 70001, 200000] } {
+        let s = setup(v, &sk, 1, b"scale2");
+        let sh = Shuffler::new(&s.pk, &s.gens, &ctx);
+        strand::verif_hooks::load_exp_tape(vec![]);
+        let es: Vec<Ciphertext<C>> = (0..nn).map(|_| s.pk.encrypt(&ctx.rnd())).collect();
+        let (eps, rs, perm) = sh.gen_shuffle(&es);
+        let mut sorted = perm.clone();
+        sorted.sort_unstable();
+        let mut ok = eps.len() == nn && rs.len() == nn && sorted.iter().enumerate().all(|(i, x)| i == *x);
+        if ok {
+            use strand::context::Element;
+            for k in 0..nn {
+                let src = &es[perm[k]];
+                let one = s.pk.encrypt_with_randomness(&v.e(&big(1)), &rs[perm[k]]);
+                ok &= eps[k].mhr == src.mhr.mul(&one.mhr).modp(&ctx) && eps[k].gr == src.gr.mul(&one.gr).modp(&ctx);
+            }
+        }
+        v.h.check(ok, || format!("gen_shuffle of {} ciphertexts: the output is not the re-encrypted permutation of the input on {}", nn, tok));
+    }
+}
+
 pub fn run_c03<C: NatCtx>(v: &mut Env<C>) {
     let small = v.small;
     let quick = v.h.tier == Tier::Quick;
@@ -457,6 +489,26 @@ pub fn run_c03<C: NatCtx>(v: &mut Env<C>) {
             };
             let label = if j == 2 { v.h.rng.bytes(4096) } else { v.label(k + j) };
             honest(v, &s, nn, &perm, &label, k + j, j, true);
+        }
+    }
+    // ---- SCALE: honest shuffle + proof + verification far beyond every block size a refactor might introduce
+    // (2^12, 2^14, 2^16 and one more), on the cheapest group, implementation only (no model line: the point is
+    // "for every N", and the verdict needs no oracle)
+    if small && v.p == big(23) && C::kind() == 'B' {
+        let ctx = v.ctx.clone();
+        let tok = v.tok.clone();
+        for nn in if quick { vec![4097usize, 16385] } else { vec![4097, 16385, 65537, 131073] } {
+            let s = setup(v, &sk, nn, b"scale");
+            let sh = Shuffler::new(&s.pk, &s.gens, &ctx);
+            strand::verif_hooks::load_exp_tape(vec![]);
+            let es: Vec<Ciphertext<C>> = (0..nn).map(|_| s.pk.encrypt(&ctx.rnd())).collect();
+            let (eps, rs, perm) = sh.gen_shuffle(&es);
+            let label = v.label(nn);
+            let ok = match sh.gen_proof(&es, &eps, &rs, &perm, &label) {
+                Ok(pf) => sh.check_proof(&pf, &es, &eps, &label).unwrap_or(false),
+                Err(_) => false,
+            };
+            v.h.check(ok, || format!("honest shuffle proof for N = {} rejected on {}", nn, tok));
         }
     }
     // ---- SEQUENCES over reused buffers: successive batches written IN PLACE into the same two vectors (a mixer
